@@ -99,8 +99,11 @@ Qed.
 Print Assumptions C08_cflags_and_release_change_command.
 
 (* THE DOCUMENTED LIMIT (outside the property's step kinds, a genuine stale artefact): an edit of what
-   the C compiler reads besides the C file that ccinfo does not reflect - a header included with
-   cinclude, an extra C file - leaves the text of the C file unchanged, and with such edits in the
+   the C compiler reads besides the C file that the heading hash does not reflect leaves the text of the
+   C file unchanged.  What the hash reflects ([ccinfo_of], as the driver instantiates it from Gen.v): the
+   compiler behind the cc name (ccinfo) and, since 304728c (Gen.HEADERS_HASHED), the contents of the
+   local headers the generated C includes that are found in the cincdir directories.  Not reflected:
+   headers reached only through --cflags -I, system headers, `## cfile` extra C files: and with such edits in the
    history the cache is not fresh for any policy of the family (known finding, replayed). *)
 Theorem C08_header_edit_leaves_text :
   forall gen hash ccinfo_of base rel dev w c,
